@@ -833,7 +833,10 @@ class HexVertices(Harness):
     Cell3Sec.vertices: the outline of three hexagons of radius s = r/sqrt(3)
     around the common vertex pos: pos + s*rho_k*e^{j(rot - 120 + 30k)},
     rho = (sqrt3, 1, sqrt3, 2) repeating; sector centres pos + s*e^{j(rot +
-    210/330/90)} with rotation rot-30."""
+    210/330/90)} with rotation rot-30.  Setter histories: the same must hold
+    for a Cell / Cell3Sec built with other values and then re-configured
+    through the radius, pos and rotation setters (in any order): nothing
+    computed at construction (sector cells) may be left stale."""
     name = 'hex-vertices'
     modules = (SH, CE)
     builtins = NAMES
@@ -841,16 +844,45 @@ class HexVertices(Harness):
                  SH + ':Shape.vertices', SH + ':Shape.calc_rotated_pos',
                  CE + ':Cell3Sec._get_vertex_positions',
                  CE + ':Cell3Sec._calc_sectors_positions',
-                 CE + ':Cell3Sec.secradius')
+                 CE + ':Cell3Sec.secradius', CE + ':Cell3Sec.radius',
+                 CE + ':Cell3Sec.rotation', CE + ':Cell3Sec.pos',
+                 CE + ':AccessPoint.pos', SH + ':Shape.radius',
+                 SH + ':Shape.rotation')
     bounds = ('pos symbolic complex, r > 0, rotation symbolic (c,s) or literal '
               '0/30/90/-45.5; tolerance 1e-11*r (float literals of cos/sin '
-              '60 deg and sqrt 3 in the code)')
+              '60 deg and sqrt 3 in the code); setter histories: object built '
+              'at (1+2j, 2.0, 10 deg), then radius/pos/rotation set to the '
+              'symbolic values in 2 (quick) / all 6 (thorough) orders')
     timeout_ms = {'quick': 15000, 'thorough': 60000}
 
     def configs(self, tier):
         out = [dict(shape='hex', rot=r) for r in ('sym', 0.0, 30.0, 90.0, -45.5)]
         out += [dict(shape='3sec', rot=r) for r in ('sym', 0.0, -45.5)]
+        orders = ('rpo', 'opr') if tier == 'quick' else (
+            'rpo', 'rop', 'pro', 'por', 'orp', 'opr')
+        for h in orders:
+            out.append(dict(shape='3sec', rot='sym', hist=h))
+            out.append(dict(shape='hex', rot='sym', hist=h))
+        out.append(dict(shape='3sec', rot=-45.5, hist='pro'))
         return out
+
+    @staticmethod
+    def _build(sh, ce, shape, pos, r, rot, hist=None):
+        """the shape as constructed, or constructed elsewhere and then
+        re-configured through its setters in the order given by `hist`"""
+        if not hist:
+            return ce.Cell3Sec(pos, r, None, rot) if shape == '3sec' else \
+                sh.Hexagon(pos, r, rot)
+        S = (ce.Cell3Sec if shape == '3sec' else ce.Cell)(1 + 2j, 2.0, None,
+                                                          10.0)
+        for op in hist:
+            if op == 'r':
+                S.radius = r
+            elif op == 'p':
+                S.pos = pos
+            else:
+                S.rotation = rot
+        return S
 
     def sym(self, ctx, cfg):
         _setup(ctx, self, cfg)
@@ -860,7 +892,10 @@ class HexVertices(Harness):
         r = ctx.real('r', positive=True)
         u = _unit_rot(rot)
         if cfg.get('shape', 'hex') == '3sec':
-            C = ce.Cell3Sec(pos, r, None, rot)
+            C = self._build(sh, ce, '3sec', pos, r, rot, cfg.get('hist'))
+            ctx.prove('3sec-attributes', And(_c(C.pos) == pos, SReal(C.radius)
+                                             == r, SReal(C.rotation) ==
+                                             SReal(rot)))
             V = C.vertices
             assert len(V) == 12
             s3 = Fraction(1.0 / math.sqrt(3.0))
@@ -878,7 +913,7 @@ class HexVertices(Harness):
                                  SReal(sec.rotation) == SReal(rot) - 30))
             ctx.prove('3sec-sectors', And(*goals))
             return
-        H = sh.Hexagon(pos, r, rot)
+        H = self._build(sh, ce, 'hex', pos, r, rot, cfg.get('hist'))
         V = H.vertices
         assert len(V) == 6
         W = [(_c(v) - pos) / r for v in V]
@@ -901,10 +936,10 @@ class HexVertices(Harness):
                       H.height / r * 2 >= math.sqrt(3) * (1 - 1e-12)))
 
     @staticmethod
-    def _bad(sh, ce, shape, pos, r, rot):
+    def _bad(sh, ce, shape, pos, r, rot, hist=None):
         bad = []
         if shape == '3sec':
-            C = ce.Cell3Sec(pos, r, None, rot)
+            C = HexVertices._build(sh, ce, shape, pos, r, rot, hist)
             V = C.vertices
             s = r / math.sqrt(3.0)
             for k in range(12):
@@ -917,7 +952,7 @@ class HexVertices(Harness):
                         abs(sec.rotation - (rot - 30)) > 1e-9:
                     bad.append('sector%d' % deg)
             return bad, V
-        H = sh.Hexagon(pos, r, rot)
+        H = HexVertices._build(sh, ce, shape, pos, r, rot, hist)
         V = H.vertices
         for k in range(6):
             want = pos + r * _polar(rot + 60 * (k - 2))
@@ -931,11 +966,14 @@ class HexVertices(Harness):
         rot = _angle_from_model(m, 'rot', _lit(cfg))
         pos = complex(m['pos_re'], m['pos_im'])
         shape = cfg.get('shape', 'hex')
-        bad, V = self._bad(sh, ce, shape, pos, m['r'], rot)
+        hist = cfg.get('hist')
+        bad, V = self._bad(sh, ce, shape, pos, m['r'], rot, hist)
         return dict(reproduced=bool(bad),
-                    key='C19/%s.vertices/position' %
-                    ('Cell3Sec' if shape == '3sec' else 'Hexagon'),
+                    key='C19/%s.vertices/position%s' %
+                    ('Cell3Sec' if shape == '3sec' else 'Hexagon',
+                     ':after-setters' if hist else ''),
                     detail=dict(pos=pos, r=m['r'], rotation=rot, wrong=bad,
+                                setter_order=hist,
                                 vertices=[complex(v) for v in V]))
 
     def concrete(self, cfg, rng):
@@ -943,7 +981,8 @@ class HexVertices(Harness):
         for _ in range(20):
             pos = complex(rng.uniform(-5, 5), rng.uniform(-5, 5))
             bad, V = self._bad(sh, ce, cfg.get('shape', 'hex'), pos,
-                               10**rng.uniform(-2, 2), rng.uniform(-720, 720))
+                               10**rng.uniform(-2, 2), rng.uniform(-720, 720),
+                               cfg.get('hist'))
             assert not bad, bad
         return 20
 
@@ -1621,8 +1660,10 @@ class ClusterLayout(Harness):
 
 # ---------------------------------------------------------------------------
 class Distances(Harness):
-    """user-to-cell distance matrices equal the Euclidean distances, rows =
-    users in cell order, columns = cells."""
+    """user-to-cell distance matrices equal the Euclidean distances between the
+    objects AS THEY ARE NOW, rows = users in cell order, columns = cells -- for
+    a cluster as created and after a cell of the cluster has been moved
+    (`pos` setter / move_by_relative_coordinate; its users move with it)."""
     name = 'distances'
     modules = (SH, CE)
     builtins = NAMES_MPL
@@ -1630,24 +1671,50 @@ class Distances(Harness):
     functions = (CE + ':Cluster.calc_dist_all_users_to_each_cell',
                  CE + ':Cluster.calc_dist_all_users_to_each_cell_no_wrap_around',
                  CE + ':Cluster.get_all_users', CE + ':CellBase.add_user',
+                 CE + ':AccessPoint.pos',
+                 SH + ':Coordinate.move_by_relative_coordinate',
                  SH + ':Coordinate.calc_dist')
     bounds = ('square grid N=4 (side symbolic), hexagon cluster N=3 (radius 1, '
               'rotation 30) (+ hexagon N=7, square N=9 thorough); cluster '
               'position symbolic; three users at symbolic positions in the '
-              'first and last cell')
+              'first and last cell; histories: as created, or one cell (first '
+              '/ last) moved by a symbolic displacement through the pos '
+              'setter or move_by_relative_coordinate, then (hexagon) one more '
+              'user added to the moved cell; concrete probe: random '
+              'histories of up to 3 moves on hexagon, 3-sector and square '
+              'clusters')
     stubs = RandomUser.stubs[1:]
+    outside = ('outline/containment of a moved or resized CellSquare: the '
+               'corners are cached at construction (see square-setters)', )
     timeout_ms = {'quick': 15000, 'thorough': 60000}
 
     def configs(self, tier):
         out = [dict(type='square', N=4, rot=0.0),
                dict(type='simple', N=3, rot=30.0, r=1.0)]
+        for hist, which in (('setpos', 'last'), ('move', 'first')):
+            out.append(dict(type='simple', N=3, rot=30.0, r=1.0, hist=hist,
+                            which=which))
+            out.append(dict(type='square', N=4, rot=0.0, hist=hist,
+                            which=which))
         if tier != 'quick':
             out += [dict(type='simple', N=7, rot=0.0, r=2.0),
                     dict(type='square', N=9, rot=0.0)]
+            for hist, which in (('setpos', 'first'), ('move', 'last')):
+                out.append(dict(type='simple', N=7, rot=0.0, r=2.0, hist=hist,
+                                which=which))
+                out.append(dict(type='square', N=9, rot=0.0, hist=hist,
+                                which=which))
         return out
 
     def expected_exception(self, cfg, exc):
         return isinstance(exc, ValueError) and 'outside the cell' in str(exc)
+
+    @staticmethod
+    def _move(cell, hist, dz):
+        if hist == 'setpos':
+            cell.pos = cell.pos + dz
+        else:
+            cell.move_by_relative_coordinate(dz)
 
     def sym(self, ctx, cfg):
         _setup(ctx, self, cfg)
@@ -1662,17 +1729,37 @@ class Distances(Harness):
         cells[-1].add_user(ce.Node(us[1]), relative_pos_bool=False)
         cells[0].add_user(ce.Node(us[0]), relative_pos_bool=False)
         cells[-1].add_user(ce.Node(us[2]), relative_pos_bool=False)
-        order = [us[0], us[1], us[2]] if len(cells) > 1 else [us[1], us[0],
-                                                               us[2]]
+        hist = cfg.get('hist')
+        if hist:
+            k = cells[-1] if cfg.get('which', 'last') == 'last' else cells[0]
+            dz = ctx.cplx('dz')
+            before = [(c, _c(c.pos), [(u, _c(u.pos)) for u in c.users])
+                      for c in cells]
+            self._move(k, hist, dz)
+            goals = []
+            for c, cp, ulist in before:
+                sh_ = dz if c is k else 0
+                goals.append(_c(c.pos) == cp + sh_)
+                assert [id(u) for u in c.users] == [id(u) for u, _ in ulist]
+                for u, up in ulist:
+                    goals.append(_c(u.pos) == up + sh_)
+                    goals.append(_c(u.relative_pos) == _c(u.pos) - _c(c.pos))
+            ctx.prove('moved-cell-takes-its-users-along', And(*goals))
+            if cfg['type'] != 'square':
+                k.add_user(ce.Node(ctx.cplx('u3')), relative_pos_bool=False)
+        # positions are read from the objects as they are now
+        users = [u for c in cells for u in c.users]
+        assert [id(u) for u in cl.get_all_users()] == [id(u) for u in users]
+        nu = len(users)
         for nm, D in (('dist-matrix', cl.calc_dist_all_users_to_each_cell()),
                       ('dist-matrix-no-wrap',
                        cl.calc_dist_all_users_to_each_cell_no_wrap_around())):
-            assert D.shape == (3, len(cells)), D.shape
+            assert D.shape == (nu, len(cells)), D.shape
             goals = []
-            for i in range(3):
+            for i, u in enumerate(users):
                 for j, c in enumerate(cells):
                     d = SReal(D[i, j])
-                    goals.append(And(d >= 0, d * d == (order[i] -
+                    goals.append(And(d >= 0, d * d == (_c(u.pos) -
                                                        _c(c.pos)).abs2()))
             ctx.prove(nm + '=euclidean', And(*goals))
         one = cells[0].calc_dist(cells[-1])
@@ -1680,7 +1767,28 @@ class Distances(Harness):
                   And(SReal(one) >= 0, SReal(one) * SReal(one) ==
                       (_c(cells[0].pos) - _c(cells[-1].pos)).abs2()))
 
+    @staticmethod
+    def _matrices_bad(cl):
+        cells = list(cl)
+        users = [u for c in cells for u in c.users]
+        want = np.array([[abs(u.pos - c.pos) for c in cells] for u in users])
+        D = cl.calc_dist_all_users_to_each_cell()
+        D2 = cl.calc_dist_all_users_to_each_cell_no_wrap_around()
+        scale = max(1.0, float(np.max(want)))
+        e1 = float(np.max(np.abs(D - want))) if D.shape == want.shape else \
+            float('inf')
+        e2 = float(np.max(np.abs(D2 - want))) if D2.shape == want.shape else \
+            float('inf')
+        bad = []
+        if e1 > 1e-9 * scale:
+            bad.append('calc_dist_all_users_to_each_cell')
+        if e2 > 1e-9 * scale:
+            bad.append('no_wrap_around')
+        return bad, dict(max_err=e1, max_err_no_wrap=e2, got=D.tolist(),
+                         want=want.tolist())
+
     def replay(self, cfg, name, model):
+        """same history through the public API on plain floats"""
         ce = repo_module(CE)
         m = model_floats(model)
         rot = _angle_from_model(m, 'rot', _lit(cfg))
@@ -1689,28 +1797,83 @@ class Distances(Harness):
         ce.Cluster._normalized_cell_positions.clear()
         cl = ce.Cluster(r, cfg['N'], pos, 1, cfg['type'], rot)
         cells = list(cl)
-        # users: the model's offsets are not needed for a distance check;
-        # place users inside the cells through the public API
+        # the users' exact places do not matter for a distance check: they
+        # are placed inside the cells through the public API
         cells[-1].add_border_user(40.0, 0.5)
         cells[0].add_border_user(200.0, 0.3)
         cells[-1].add_border_user(100.0, 0.9)
-        users = cl.get_all_users()
-        D = cl.calc_dist_all_users_to_each_cell()
-        D2 = cl.calc_dist_all_users_to_each_cell_no_wrap_around()
-        want = np.array([[abs(u.pos - c.pos) for c in cells] for u in users])
-        bad = not (np.allclose(D, want, rtol=1e-9) and np.allclose(
-            D2, want, rtol=1e-9))
-        return dict(reproduced=bad, key='C19/Cluster.calc_dist_all_users/%s' %
-                    cfg['type'], detail=dict(got=D.tolist(),
-                                             want=want.tolist()))
+        hist = cfg.get('hist')
+        dz = None
+        if hist:
+            dz = complex(m.get('dz_re', 0.0), m.get('dz_im', 0.0))
+            if abs(dz) < 1e-6 * r:
+                dz = (10 + 4j) * r
+            k = cells[-1] if cfg.get('which', 'last') == 'last' else cells[0]
+            before = [complex(u.pos) for u in k.users]
+            self._move(k, hist, dz)
+            moved = all(abs(u.pos - (b + dz)) <= 1e-9 * (abs(dz) + abs(b))
+                        for u, b in zip(k.users, before))
+            if cfg['type'] != 'square':
+                k.add_border_user(300.0, 0.7)
+        bad, det = self._matrices_bad(cl)
+        if hist and not moved:
+            bad.append('users-not-moved-with-cell')
+        det.update(history=[hist, cfg.get('which'), dz] if hist else None,
+                   failed=bad)
+        return dict(reproduced=bool(bad),
+                    key='C19/Cluster.calc_dist_all_users/%s%s' %
+                    (cfg['type'], ':after-cell-moved' if hist else ''),
+                    detail=det)
+
+    def _history_probe(self, rng):
+        """hexagon / 3-sector / square clusters, random users, up to three
+        cells moved one after the other (either way of moving)"""
+        from pysym.runner import ConcreteViolation
+        ce = repo_module(CE)
+        np.random.seed(rng.randrange(2**31))
+        n = 0
+        for ctype, N, rot in (('simple', 3, 0.0), ('simple', 7, 25.0),
+                              ('3sec', 7, -100.0), ('3sec', 3, 40.0),
+                              ('square', 4, 0.0), ('simple', 19, 10.0)):
+            ce.Cluster._normalized_cell_positions.clear()
+            r = 10**rng.uniform(-1, 1)
+            cl = ce.Cluster(r, N, complex(rng.uniform(-3, 3),
+                                          rng.uniform(-3, 3)), 1, ctype, rot)
+            cl.add_random_users(num_users=2)
+            hist = []
+            for step in range(4):
+                bad, det = self._matrices_bad(cl)
+                if bad:
+                    det.update(history=hist, failed=bad)
+                    det.pop('got'), det.pop('want')
+                    raise ConcreteViolation(
+                        'C19/Cluster.calc_dist_all_users/%s%s' %
+                        (ctype, ':after-cell-moved' if hist else ''), det)
+                if step == 3:
+                    break
+                cid = rng.randrange(1, N + 1)
+                dz = complex(rng.uniform(-9, 9), rng.uniform(-9, 9)) * r
+                how = rng.choice(['setpos', 'move'])
+                self._move(cl.get_cell_by_id(cid), how, dz)
+                hist.append((how, cid, dz))
+                if ctype != 'square':
+                    cl.add_random_users(cid, 1)
+            n += 1
+        ce.Cluster._normalized_cell_positions.clear()
+        return n
 
     def concrete(self, cfg, rng):
+        n = 0
+        if cfg.get('hist') == 'setpos' and cfg['type'] == 'simple' and \
+                cfg['N'] == 3:
+            n += self._history_probe(rng)
         r = self.replay(cfg, '', dict(pos_re=rng.uniform(-3, 3),
                                       pos_im=rng.uniform(-3, 3),
                                       r=10**rng.uniform(-1, 1), rot_c=1.0,
-                                      rot_s=0.0))
+                                      rot_s=0.0, dz_re=rng.uniform(-9, 9),
+                                      dz_im=rng.uniform(1, 9)))
         assert not r['reproduced'], r
-        return 1
+        return n + 1
 
 
 # ---------------------------------------------------------------------------
@@ -1794,6 +1957,72 @@ class PointProcess(Harness):
         return n
 
 
+# ---------------------------------------------------------------------------
+class SquareSetters(Harness):
+    """CellSquare / Rectangle after the pos setter: the outline (vertices) and
+    the containment test must move with the cell (the users do).
+
+    Found a genuine defect (fixed in /repo by 5d3abbc): Rectangle cached
+    the absolute corners at construction and no setter refreshed them, so
+    after `cell.pos = p` the vertices stayed where they were, containment was
+    tested at the old place, the moved users were outside their cell and
+    add_random_user() never terminated."""
+    name = 'square-setters'
+    modules = (SH, CE)
+    builtins = NAMES
+    div_mode = 'assume'
+    functions = (CE + ':AccessPoint.pos', SH + ':Rectangle.vertices',
+                 SH + ':Rectangle._get_vertex_positions',
+                 SH + ':Rectangle.is_point_inside_shape')
+    bounds = ('square cell, side in [1e-3,1e6], literal rotation 0 / 30, '
+              'symbolic start position, displacement and query offset')
+    timeout_ms = {'quick': 15000, 'thorough': 60000}
+    KEY = 'C19/CellSquare.pos-setter/outline-and-containment-not-moved'
+
+    def configs(self, tier):
+        return [dict(rot=0.0), dict(rot=30.0)]
+
+    def sym(self, ctx, cfg):
+        _setup(ctx, self, cfg)
+        ce = repo_module(CE)
+        p0, dz, q = ctx.cplx('p0'), ctx.cplx('dz'), ctx.cplx('q')
+        L = _size_input(ctx, cfg)
+        C = ce.CellSquare(p0, L, 1, cfg['rot'])
+        V0 = [_c(v) for v in C.vertices]
+        r0 = bool(C.is_point_inside_shape(p0 + q))
+        C.pos = p0 + dz
+        V1 = [_c(v) for v in C.vertices]
+        ctx.prove('outline-moves-with-the-cell',
+                  And(*[V1[k] == V0[k] + dz for k in range(4)]))
+        r1 = bool(C.is_point_inside_shape(p0 + dz + q))
+        ctx.prove('containment-moves-with-the-cell', r0 == r1)
+
+    def replay(self, cfg, name, model):
+        ce = repo_module(CE)
+        m = model_floats(model)
+        p0 = complex(m.get('p0_re', 0.0), m.get('p0_im', 0.0))
+        dz = complex(m.get('dz_re', 0.0), m.get('dz_im', 0.0))
+        q = complex(m.get('q_re', 0.0), m.get('q_im', 0.0))
+        L = _size_from_model(m, cfg)
+        C = ce.CellSquare(p0, L, 1, cfg['rot'])
+        V0 = np.array(C.vertices)
+        r0 = bool(C.is_point_inside_shape(p0 + q))
+        C.pos = p0 + dz
+        V1 = np.array(C.vertices)
+        r1 = bool(C.is_point_inside_shape(p0 + dz + q))
+        bad = []
+        if np.max(np.abs(V1 - (V0 + dz))) > 1e-9 * (L + abs(dz)):
+            bad.append('outline')
+        if r0 != r1:
+            bad.append('containment')
+        return dict(reproduced=bool(bad), key=self.KEY,
+                    detail=dict(start=p0, displacement=dz, side=L,
+                                rotation=cfg['rot'], query_offset=q,
+                                vertices_before=V0, vertices_after=V1,
+                                inside_before=r0, inside_after=r1,
+                                failed=bad))
+
+
 def _wrap_replay(h):
     orig = h.replay
 
@@ -1806,7 +2035,8 @@ def _wrap_replay(h):
 
 
 HARNESSES = [RectContain(), CircleContain(), HexVertices(), BorderPoint(),
-             RandomUser(), ClusterLayout(), Distances(), PointProcess()]
+             RandomUser(), ClusterLayout(), Distances(), PointProcess(),
+             SquareSetters()]
 HARNESSES = [_wrap_replay(h) for h in HARNESSES]
 
 MANIFEST = dict(
@@ -1828,7 +2058,12 @@ MANIFEST = dict(
     'square / 3-sector cells are congruent, centred, neighbour centres '
     'exactly 2 apothems / 1 side apart along an edge normal, pairwise '
     'separated and share an edge, distance matrices are Euclidean, and '
-    'random points in a circle/annulus/rectangle fall inside it.  '
+    'random points in a circle/annulus/rectangle fall inside it.  Setter '
+    'histories: the distance matrices are claimed against the objects as '
+    'they are after a cell was moved (pos setter / '
+    'move_by_relative_coordinate, users move along), and Cell/Cell3Sec '
+    'outlines and sector cells after radius/pos/rotation setters in any '
+    'order.  '
     'Counterexamples are replayed on plain floats through the public API.',
     note='floats are exact reals (float literals of the code are exact '
     'rationals, obligations carry 1e-11 relative tolerance); where rotation, '
